@@ -145,6 +145,25 @@ def oracle_stream(c):
     return why
 
 
+def oracle_dump(c):
+    """The response held after an execution is that execution's, body included."""
+    why = []
+    what = "execution %d (server sent %d with %d bytes of body; job %s a callback)" % (c["step"], c["want"], c["size"], "with" if c["callback"] else "without")
+    if not c["err_nil"] or c["code"] != c["want"] or (c["status"] == OK) != (200 <= c["want"] < 400):
+        why.append("%s: err_nil=%s held code=%d status=%d" % (what, c["err_nil"], c["code"], c["status"]))
+    if c.get("dump_err"):
+        why.append("%s: DumpResponse(true) after Execute returned fails: %s" % (what, c["dump_err"]))
+    elif not c["body_ok"]:
+        why.append("%s: the body returned by DumpResponse(true) (%d bytes) is not what the server sent in this execution" % (what, c["body_len"]))
+    if c.get("dump2_err") or not c["body2_ok"]:
+        if not c.get("dump_err") and c["body_ok"]:
+            why.append("%s: a second DumpResponse(true) differs: %s" % (what, c.get("dump2_err") or "other body"))
+    ncb = 1 if c["callback"] else 0
+    if c["cb_calls"] != ncb:
+        why.append("callback invoked %d times in one execution (expected %d)" % (c["cb_calls"], ncb))
+    return why
+
+
 def oracle_shell(c):
     if c["variant"] in NOSTART_ERR:
         return oracle_shell_nostart(c)
@@ -269,6 +288,8 @@ def oracle(c):
         return oracle_overlap(c)
     if k == "stream":
         return oracle_stream(c)
+    if k == "dump":
+        return oracle_dump(c)
     if k == "curl-bodies":
         n = c["handed_out"] - c["closed"]
         return ["%d response bodies unclosed after %d sequential executions" % (n, c["executions"])] if n > 1 else []
@@ -289,7 +310,7 @@ SUBCMDS = {
     "http-synthetic": ["http", "synthetic"], "http-server": ["http", "server"], "http-transport": ["http", "transport"],
     "shell-exits": ["shell", "exits"], "shell-sizes": ["shell", "sizes"], "func": ["func"], "cancel": ["cancel"],
     "overlap": ["overlap"], "http-stream": ["http", "stream"], "shell-nostart": ["shell", "nostart"],
-    "shell-background": ["shell", "background"],
+    "shell-background": ["shell", "background"], "http-dump": ["http", "dump"],
 }
 PARALLEL = ("shell-background",)   # mostly sleeping (4 s): run beside the other commands
 
@@ -305,6 +326,9 @@ HOW = {
                         "0.5 / 1.5 / 4 s (and then writes `late`, or stays silent) and exits at once with 0 (or 3); all variants run in parallel, no "
                         "timing asserted; expected: the command's own outcome (status OK iff the shell exited 0, Execute returns nil then / the "
                         "*exec.ExitError otherwise) and everything written to the pipes (`earlylate`)",
+    "http-dump": "jobsh http dump: ONE CurlJob per callback variant over real connections to a local server that answers 200 / 404 / 500 with bodies "
+                 "of 1 B .. 64 KiB that name the execution; after every Execute the harness calls DumpResponse(true) twice and compares the body "
+                 "with what the server sent (the callback reads JobStatus only)",
     "shell-nostart": "jobsh shell nostart: ONE ShellJob (command prints o<exit>.<step> / e<exit>.<step> and exits with the number in a file); "
                      "executions in which exec cannot start the shell (context already cancelled / deadline passed before Execute, PATH without "
                      "bash/sh, PATH with a bash/sh that is not executable) as first execution of a new job and between executions that run; "
@@ -571,7 +595,7 @@ def replay(ctx, path):
         args = c.get("args") or SUBCMDS[name]
     fails = []
     recs = collect(binp, name, args, fails, "replay")
-    keys = ("kind", "variant", "want", "body", "callback", "note", "job", "step")
+    keys = ("kind", "variant", "want", "body", "callback", "note", "job", "step", "size")
     same = [f for f in fails if all(f["case"].get(k) == c.get(k) for k in keys)] or fails
     print(json.dumps(same[:2], default=str)[:3000])
     if same:
